@@ -7,6 +7,9 @@ baseline = json.load(open('/root/.vp/BASELINE.json'))['cmd'] if os.path.exists('
 SIM = "deterministic simulation with fault injection (seeded schedules over real olric+memberlist+redcon+go-redis in one synctest bubble)"
 NOTE = "Trusts the simulator seams (simnet, simsync, fake clock) and that the mechanical source rewrite preserves olric's semantics; 1 P per run; sampling."
 claimed = {
+ "C02": dict(level="exploration", design="DESIGN.md §8 C02",
+   text="Seeded search over failure instants: single-writer-per-key workloads run while up to R-1 members (owner/backup of a hot key, coordinator, bystander) leave gracefully or crash (reset or silence), including at instants with RESP traffic in flight; after bounded re-stabilisation every key is read through every survivor and compared with the acknowledged history (errors = indeterminate writes), then a fault-free phase must behave sequentially.",
+   note=NOTE + " Crash = atomic cut from the network; nothing of a crashed member survives (olric has no durable state).", technique=SIM + "; crash/leave injection + acknowledged-history oracle"),
  "C13": dict(level="exploration", design="DESIGN.md §8 C13",
    text="Seeded search over membership histories (join, graceful leave, crash with reset or silence, restart under the same address, coordinator departure) with gossip loss/duplication; after a bounded stabilisation wait every member's own view, CLUSTER.ROUTINGTABLE, CLUSTER.MEMBERS, STATS and a ClusterClient table are validated for agreement, ownership validity, load bound and coordinator identity; exceeding the bound is a liveness violation.",
    note=NOTE, technique=SIM + "; routing-table invariants after bounded re-stabilisation"),
